@@ -643,6 +643,10 @@ class CompilerPassGenerateCode(CompilerPass):
                         value._dev_id._id = target.name
                     elif isinstance(value._dev_id._id, IC10Register):
                         value._dev_id._id._is_intermediate = False
+                        # the register holding the id is in use wherever the name is used
+                        value._dev_id._id.nodes_reading.extend(
+                            self.data.get_sym_data(target).nodes_reading
+                        )
 
                 structures = self.data.structures
                 scope_name = get_scope_name(target)
